@@ -11,6 +11,8 @@
 //!   lfqgrid refRt refFile files d0 d1 d2 scoring sum sa(f64) [n (rt isotope file intensity)…]
 //!                                             -> [c cell(f64)…] [d dot…] [d angle…] (0 | 1 peakRt score angle [files area…])
 //!   lfq     [t threads…] binSize W            -> R for each pool size, in order   (binSize 0 = the map as built)
+//!   lfqbigmap seed nPep [t threads…]          -> the lfqmap reply once per pool size (world derived from the seed on both sides, see `big_world`)
+//!   lfqbig  seed nPep [t threads…]            -> R per pool size (same derived world: nPep confident peptides, RT-disjoint, one clean envelope each)
 //!   lfq2    kind [n perm…] binSize W_A W_B    -> R_A R_B   (single-thread pool; kind 0 = noise, 1 = file permutation, 2 = spectrum order)
 use super::Info;
 use crate::proto::{Case, Out, Rng, Tier, Toks};
@@ -26,7 +28,7 @@ use sage_core::spectrum::{IMPeak, MS1Spectra, Peak, ProcessedSpectrum};
 use std::collections::HashMap;
 use std::sync::{Arc, Mutex, OnceLock};
 
-pub const OPS: &[&str] = &["lfqmap", "lfqgrid", "lfq", "lfq2"];
+pub const OPS: &[&str] = &["lfqmap", "lfqgrid", "lfq", "lfq2", "lfqbigmap", "lfqbig"];
 pub const INFO: Info = Info {
     rule: "synthetic LFQ worlds: 1-6 peptides (random sequences incl. C/M), 1-3 PSMs each mixing confident targets \
            (q in {0,0.005,0.01}) with decoys and q in {nextafter(0.01),0.05,1}, shuffled; 1-3 files (5 thorough) with identity or \
@@ -36,7 +38,7 @@ pub const INFO: Info = Info {
            directed: peaks exactly on / one ulp outside massLo/massHi, scans exactly on / one ulp outside rt +- RT_TOL, \
            feature rt < 2*RT_TOL (decoy rt clamps to 0), q exactly 0.01, empty charge range, empty inputs, wide ppm (window > 0.1 Da); \
            streams: pools {1,2,4,16}; file B = 2 x file A; lfq2 noise (B = A + irrelevant peaks/spectra/PSMs) and file permutation; \
-           acos-cliff stream (exact theoretical envelopes with 2^30 dynamic range in one RT bin, one intensity tuned by bisection on the real Grid until the similarity sits within an ulp of 1.0; emitted as lfq2 kind 2 = same spectra in another order, and lfq with repeated pools); lfqmap (feature map as built, incl. >16384 ranges in thorough) and lfqgrid (Grid::add_entry/summarize/integrate on \
+           acos-cliff stream (exact theoretical envelopes with 2^30 dynamic range in one RT bin, one intensity tuned by bisection on the real Grid until the similarity sits within an ulp of 1.0; emitted as lfq2 kind 2 = same spectra in another order, and lfq with repeated pools); big worlds (1000 quick / 1000, 2000, 4000 thorough confident peptides = 18 ranges each, derived from a seed on both sides, RT-disjoint, one clean envelope each): lfqbigmap (page layout of the map built by 1, 2, 4, 16 workers) and lfqbig (full pipeline in those pools); lfqmap (feature map as built, incl. >16384 ranges in thorough) and lfqgrid (Grid::add_entry/summarize/integrate on \
            random and boundary contributions). non-trivial = at least one in-window peak and one irrelevant peak or PSM",
     serial: false,
 };
@@ -383,12 +385,96 @@ pub fn exec(op: &str, t: &mut Toks) -> Option<String> {
             put_result(&mut o, &run(&a, bin, 1));
             put_result(&mut o, &run(&b, bin, 1));
         }
+        "lfqbigmap" => {
+            let seed = t.usize()? as u64;
+            let n_pep = t.usize()?;
+            let threads = t.list(|t| t.usize())?;
+            let w = big_world(seed, n_pep);
+            let fs = features(&w.feats);
+            for n in threads {
+                let fm = pool(n.max(1)).install(|| build_feature_map(w.settings(), (w.z_lo, w.z_hi), &fs));
+                o.n(fm.ranges.len());
+                for r in &fm.ranges {
+                    o.f32(r.rt).f32(r.mass_lo).f32(r.mass_hi).f32(r.mobility_lo).f32(r.mobility_hi);
+                    o.n(r.charge).n(r.isotope).n(r.peptide.0).n(r.file_id).b(r.decoy);
+                }
+                o.n(fm.min_rts.len());
+                for m in &fm.min_rts {
+                    o.f32(*m);
+                }
+                o.n(fm.bin_size);
+            }
+        }
+        "lfqbig" => {
+            let seed = t.usize()? as u64;
+            let n_pep = t.usize()?;
+            let threads = t.list(|t| t.usize())?;
+            let w = big_world(seed, n_pep);
+            for n in threads {
+                let rows = run(&w, 0, n.max(1));
+                put_result(&mut o, &rows);
+            }
+        }
         _ => return None,
     }
     if !t.done() {
         return None;
     }
     Some(o.finish())
+}
+
+// ---------------------------------------------------------------------------------------------
+// big worlds, derived from (seed, nPep) identically here and in lean/SageModel/Drv/C19.lean (`bigWorld`): only integer
+// arithmetic, exact integer -> f32 casts and single correctly rounded f32 operations are used, so both sides get the same bits.
+
+const BIG_SEQS: [&[u8]; 8] = [b"PEPTIDEK", b"ACDEFGHIK", b"LLMMNNPPQQR", b"SSTTVVWWYK", b"GGAAGGAAGGK", b"CMCMCMK", b"FFYYWWHHR", b"DEDEDEDEKR"];
+
+/// splitmix64 finaliser of (seed, i): stateless
+fn big_hash(seed: u64, i: u64) -> u64 {
+    let mut z = seed.wrapping_add((i + 1).wrapping_mul(0x9E37_79B9_7F4A_7C15));
+    z = (z ^ (z >> 30)).wrapping_mul(0xBF58_476D_1CE4_E5B9);
+    z = (z ^ (z >> 27)).wrapping_mul(0x94D0_49BB_1331_11EB);
+    z ^ (z >> 31)
+}
+
+/// nPep confident target peptides, charges 2..=4 searched (18 ranges each), aligned RTs 0.03 apart (so that no scan of one
+/// peptide lies in a window of another, decoy windows included), two files with identity alignment; peptide i is identified
+/// in file i % 2 and has three MS1 scans there (0.0008 apart) carrying a clean charge-2 envelope 1 : 0.75 : 0.5
+fn big_world(seed: u64, n_pep: usize) -> World {
+    let mut peptides = Vec::with_capacity(n_pep);
+    let mut feats = Vec::with_capacity(n_pep);
+    let mut spectra = Vec::with_capacity(3 * n_pep);
+    for i in 0..n_pep {
+        let r = big_hash(seed, i as u64);
+        let calc = (700_000 + (r % 3_000_000)) as f32 / 1000.0f32;
+        let rt = (2 + 3 * i) as f32 / 100.0f32;
+        let base = (1000 + ((r >> 40) % 9000)) as f32;
+        peptides.push(BIG_SEQS[((r >> 32) % 8) as usize].to_vec());
+        feats.push(Ft { pep: i as u32, label: 1, q: 0.0, rt, calcmass: calc, charge: 2, file: i % 2, ims: 1.0 });
+        for k in 0..3usize {
+            let t = rt + [-0.0008f32, 0.0, 0.0008][k];
+            let wk = [0.5f32, 1.0, 0.5][k];
+            let peaks = (0..3usize)
+                .map(|iso| ((calc + iso as f32 * NEUTRON) / 2.0f32, base * wk * [1.0f32, 0.75, 0.5][iso], 1.0f32))
+                .collect();
+            spectra.push(Sp { file: i % 2, t, peaks });
+        }
+    }
+    World {
+        with_mob: false,
+        combine: true,
+        scoring: 3,
+        sum: true,
+        sa: 0.5,
+        ppm: 10.0,
+        mob_pct: 1.0,
+        z_lo: 2,
+        z_hi: 4,
+        peptides,
+        feats,
+        aligns: vec![(1.0, 1.0, 0.0), (1.0, 1.0, 0.0)],
+        spectra,
+    }
 }
 
 // ---------------------------------------------------------------------------------------------
@@ -1081,6 +1167,28 @@ pub fn gen(rng: &mut Rng, tier: Tier, emit: &mut dyn FnMut(Case)) {
         Cfg { max_pep: 6, max_files: 5, scans: (5, 25) }
     };
     directed(emit);
+    // big worlds: more than 16384 precursor ranges (1000+ confident peptides x 18), so that the RT-sorted map has several
+    // pages even when built by ONE worker; the map itself (page layout against bin_size) and the full pipeline in pools
+    let big: &[(usize, &[usize])] = if quick {
+        &[(1000, &[1, 4])]
+    } else {
+        &[(1000, &[1, 2, 4, 16]), (2000, &[1, 2, 4, 16]), (4000, &[1, 2, 4, 16])]
+    };
+    for (n_pep, threads) in big {
+        let seed = rng.next() % 1_000_000;
+        let mut o = Out::new();
+        o.raw("lfqbigmap").n(seed).n(*n_pep).n(threads.len());
+        for t in *threads {
+            o.n(*t);
+        }
+        emit(Case::new(o.finish()).tag("big-map"));
+        let mut o = Out::new();
+        o.raw("lfqbig").n(seed).n(*n_pep).n(threads.len());
+        for t in *threads {
+            o.n(*t);
+        }
+        emit(Case::new(o.finish()).tag("big-world"));
+    }
     gen_grid(rng, if quick { 60 } else { 4000 }, emit);
 
     // feature map as built
